@@ -249,6 +249,13 @@ func VP_C16_Fault() {
 			}
 		}
 	} else {
+		// the failure was reported: the same command, repeated once the fault is gone, must not build on debris of the
+		// failed attempt (a half-written object taken for stored, a leftover temporary file taken for a branch)
+		if zzvp.Param("retry", 1) == 1 {
+			again := zzvp.Run(argv...)
+			zzvp.Assert(again.Exit == 0 || again.Exit == 1, "repeating the command after a reported I/O failure never crashes")
+			zzvp.Assert(vpFsck() == "", "after the repeated command the repository is still connected: what the staging area and the branches name can be read")
+		}
 		for i, n := range before.names {
 			id, found := after.get(n)
 			if found && id != before.ids[i] {
